@@ -187,6 +187,15 @@ def run_vectors(prog, rep):
                                 v = sem.local_vars(f).get(x.decl.get('lid'))
                                 if v is not None and not any(y is lp for y in v.ancestors()) and 'vector' not in (v.get('type') or '') and 'optional' not in (v.get('type') or ''):
                                     carried.append(x.decl.get('name'))
+            # every element is answered by the pair function: no result is appended, and no iteration is left, before it was called
+            if loops:
+                lp = loops[0]
+                for m in f.walk():
+                    if m.id >= c.id or not any(x is lp for x in m.ancestors()) or any(x is m for x in c.ancestors()):
+                        continue
+                    if m.k in ('continue', 'break') or (m.k == 'call' and (m.callee or {}).get('name') in ('push_back', 'emplace_back') and not m.get('op')):
+                        rule.bad(key + '|bypass', rep.where(m), f.label(), 'an element of the list is answered (%s) before the pair function was asked: list and single conversion can disagree for the elements that take this path' % m.src(40))
+                        break
             rule.check(same_idx and eqlen and bool(rmok) and not carried, key + '|elementwise', rep.where(c), f.label(),
                        'element i of starts and ends, equal lengths enforced, range mode handed down, no state carried between elements',
                        'same index for both vectors: %s, equal-length guard: %s, range mode handed down: %s%s' % (same_idx, eqlen, bool(rmok),
